@@ -238,6 +238,27 @@ def job_rect(nrows):
     return acc
 
 
+def unicode_blanks():
+    return [chr(c) for c in range(0x110000) if not (0xD800 <= c <= 0xDFFF) and chr(c).isspace() and chr(c) != '\n']
+
+
+@worker
+def job_blanks(chunk):
+    """Every Unicode blank (str.isspace, line feed excluded) around, inside and instead of cell text; plus a few non-blanks that look like blanks."""
+    acc = Acc()
+    s = None
+    lookalikes = ['\u200b', '\ufeff', '\u2060', '\u180e', '\u00ad']
+    for c in chunk + (lookalikes if chunk and chunk[0] == ' ' else []):
+        for pat in ('|%sa%s|', '|a%sb|', '|%s|', '|%s%sa|b%s%s|', '| %s\\n%s |', '%s| a |%s', '|\\%s|', '|a|%s'):
+            s = pat.replace('%s', c)
+            check_row(s, acc)
+            for host in ('datatable', 'second-row'):
+                if s.startswith('|'):
+                    check_doc(HOSTS[host] % s[1:], acc, 'row')
+    acc.sample({'row': s})
+    return acc
+
+
 def run(ctx):
     probs = R.selftest()
     ctx.selftest(not probs, 'reference pipeline reproduces the acceptance corpus (%s)' % (probs[:3] or 'ok'))
@@ -253,6 +274,9 @@ def run(ctx):
     ctx.level('rows len<=%d through parser' % n2, [job_parser_rows.job(seed, h, i, n2) for h in HOSTS for i in range(len(al))])
     n3 = ctx.pick(4, 5)
     ctx.level('round-trip cells len<=%d' % n3, [job_roundtrip.job(i, n3) for i in range(6)])
+    ub = unicode_blanks()
+    ctx.notes['unicode_blanks'] = len(ub)
+    ctx.level('every Unicode blank in cells (%d characters)' % len(ub), [job_blanks.job(ub[i:i + 4]) for i in range(0, len(ub), 4)])
     ctx.level('table shapes rows<=4', [job_rect.job(n) for n in (1, 2, 3, 4)])
 
 
